@@ -187,7 +187,10 @@ fn judge(id: &str, scn: &ParScn, o: &Outcome, st: &mut Stats) -> Vec<Violation> 
         // init failures come back as Err of the caller's error type (C15)
         if scn.api == Api::GenericInit {
             let res = h.result.clone().unwrap_or_default();
-            let expect_err = scn.fail_reader_init || scn.fail_dataset_init_at.map(|k| k <= q).unwrap_or(false);
+            // a failing closure only matters if that call really happened: the initial fill loop
+            // stops early when the reader thread has already finished (empty input), so the
+            // number of dataset_init calls depends on the schedule
+            let expect_err = scn.fail_reader_init || scn.fail_dataset_init_at.map(|k| (h.dataset_inits as usize) > k).unwrap_or(false);
             if expect_err && !res.starts_with("Err(") {
                 add("C15.init_failure_not_returned", format!("an init closure failed but the call returned {}", res));
             }
@@ -269,7 +272,11 @@ fn judge(id: &str, scn: &ParScn, o: &Outcome, st: &mut Stats) -> Vec<Violation> 
         let res = h.result.clone().unwrap_or_default();
         let init_api = matches!(scn.api, Api::FastaInit | Api::FastqInit);
         let expect_init_err = init_api
-            && (scn.fail_reader_init || scn.fail_dataset_init_at.map(|k| k <= q).unwrap_or(false));
+            && (scn.fail_reader_init
+                || scn.fail_dataset_init_at.map(|k| (h.dataset_inits as usize) > k).unwrap_or(false)
+                // a record-data initialiser fails inside a worker: only a consumer that drains is
+                // certain to reach that set's result
+                || (drain && scn.fail_record_init_at.map(|k| (h.record_inits as usize) > k).unwrap_or(false)));
         if drain && !init_fault {
             if per_record {
                 // the function returns Ok(None) or the error sequential reading reports
